@@ -54,6 +54,46 @@ def literal_terms(t):
     return None
 
 
+def table_items(summary, lp):
+    """Items of ``for k, v in table.items()`` where ``table`` is a local dict that is filled, before the loop, only by stores with keys that
+    are constants after unrolling their own literal loops (a dispatch table): [(key, value) tuple terms] in insertion order, else None."""
+    it = strip(lp.iterable)
+    if not (head(it) == "call" and head(strip(it[1])) == "attr" and strip(it[1])[2] == "items" and not it[2] and not it[3]):
+        return None
+    obj = strip(it[1])[1]
+    base = strip(obj)
+    table = {}
+    if head(base) == "dict":
+        for k, v in base[1]:
+            if not is_const(strip(k)):
+                return None
+            table[strip(k)] = v
+    elif not (head(base) == "call" and strip(base[1]) == ("glob", "builtins.dict") and not base[2] and not base[3]):
+        return None
+    inside = [e.seq for e in summary.events if lp.lid in e.ctx.loops]
+    first = min(inside) if inside else len(summary.events)
+    n = 0
+    for e in summary.events:
+        if e.kind == "setitem" and e["obj"] == obj:
+            if e.seq >= first or not set(e.ctx.guards) <= set(lp.ctx.guards):
+                return None
+            from .nnabs import simplify
+            for _, (k, v) in unroll(summary, e, [e["index"], e["value"]]):
+                k = simplify(strip(k))
+                if not is_const(k):
+                    return None
+                table[k] = v
+                n += 1
+        elif e.kind == "call" and any(x == obj for x in walk(e["term"])) and e.seq < first:
+            c = strip(e["term"])
+            if head(strip(c[1])) == "attr" and strip(c[1])[1] == obj and strip(c[1])[2] in ("items", "keys", "values", "get") and not any(x == obj for a in c[2] for x in walk(a)):
+                continue
+            return None        # the table escapes or is modified by a method before the loop
+    if not n:
+        return None
+    return [("tuple", (k, v)) for k, v in table.items()]
+
+
 def unroll(summary, event_or_ctxloops, terms):
     """Instantiate ``terms`` for every combination of the enclosing loops whose iterables are literal collections of constants.
     Returns [(assignment {loopid: value}, [terms...])]; loops over non-literal iterables stay symbolic."""
@@ -61,7 +101,7 @@ def unroll(summary, event_or_ctxloops, terms):
     domains = []
     for lid in loops:
         lp = summary.loops[lid]
-        items = literal_terms(subst(lp.iterable, {})) if lp.kind == "for" else None
+        items = (literal_terms(subst(lp.iterable, {})) or table_items(summary, lp)) if lp.kind == "for" else None
         if items is not None:
             domains.append((lp, items))
     combos = [({}, {})]
